@@ -64,6 +64,17 @@ def run_case(c):
             inp = X.to_input(t, v, form)
     except BaseException as e:  # noqa
         return {"stage": "input", "exc": X.exc_class(e), "msg": repr(e)[:300], "tb": traceback.format_exc()[-600:]}
+    # "any prior allocations and frees": an earlier object of the same class lived (and was looked at
+    # through a view) where this one may land, and was released
+    if c.get("ghost") is not None:
+        try:
+            g = T(X.to_input(t, c["ghost"], "py"), _buffer=b)
+            X.readback(t, T._from_buffer(b, g._offset))
+            res["ghost"] = [int(g._offset), int(g._size)]
+            b.free(g._offset, g._size)
+            del g
+        except BaseException as e:  # noqa
+            res["ghost_exc"] = X.exc_class(e) + ": " + repr(e)[:200]
     allocs.clear()
     before = snap(b)
     cap0 = b.capacity
